@@ -83,6 +83,7 @@ pub fn run_history(
     }
     if viol.is_none() {
         for (i, op) in hist.iter().enumerate() {
+            crate::run::breadcrumb(&json!({"cfg": tpl.cfg.label(), "history": hist_str(&hist[..=i]), "replay": {"kind":"plog","cfg": tpl.cfg, "history": &hist[..=i], "partitions": 2, "tcp": tcp}}));
             let out = w.apply(op);
             res.transitions += 1;
             let canonical = match alphabet0 {
